@@ -1,5 +1,358 @@
 import NibabelModel.Model.C17
-/-! Props/C17 — the property theorems for C17 (statements + proofs; helper lemmas live in Lemmas/). -/
+import NibabelModel.Lemmas.C17
+import NibabelModel.Generated.C17Codes
+/-! Props/C17 — property theorems for C17 "GIFTI images round-trip through XML for every encoding".
+
+    Proved for ALL lists / event streams / shapes (no bound):
+      container   : remove_by_intent_is_filter, remove_by_intent_spec, select_is_filter, select_remove_partition,
+                    remove_by_position, remove_by_position_error, add_appends, agg_selects_filter, agg_tuple_order,
+                    original defect: orig_remove_skips_adjacent, removeByIntentOrig_counterexample,
+                    orig_loop_characterisation, orig_correct_iff_no_adjacent
+      parser      : chunking_independent, rechunk_text_node
+      data block  : elem_roundtrip, buffer_roundtrip, order_roundtrip, data_block_roundtrip, codes_pinned
+
+    PARTIAL (external, enter as hypotheses/parameters, checked only by the oracle on the real code):
+      expat / ElementTree (escaping, which handler calls are made), base64, zlib, ASCII number printing/parsing. -/
 namespace Nb.C17
+
+/-! ## container operations -/
+
+/-- `remove_gifti_data_array_by_intent` (repaired logic): the result is THE list that keeps the order of the
+    image (sublist), contains no array of the intent, and contains every other array with its full multiplicity —
+    i.e. all and only the named arrays are removed. -/
+theorem remove_by_intent_is_filter (l : List DA) (it : Nat) (r : List DA) :
+    (r.Sublist l ∧ (∀ d ∈ r, d.intent ≠ it) ∧ (∀ d, d.intent ≠ it → r.count d = l.count d))
+      ↔ r = removeByIntent l it := by
+  constructor
+  · rintro ⟨hs, hn, hc⟩
+    exact sublist_eq_filter (fun d => d.intent != it) hs (fun d hd => by simpa using hn d hd)
+      (fun d hd => hc d (by simpa using hd))
+  · rintro rfl
+    obtain ⟨h1, h2, h3⟩ := filter_spec (fun d : DA => d.intent != it) l
+    exact ⟨h1, fun d hd => by simpa using h2 d hd, fun d hd => h3 d (by simpa using hd)⟩
+
+example : removeByIntent [⟨0, 5⟩, ⟨1, 5⟩, ⟨2, 6⟩, ⟨3, 5⟩, ⟨4, 5⟩] 5 = [⟨2, 6⟩] := by decide
+
+/-- membership form: an array is in the result iff it was in the image and has another intent; nothing is added;
+    the number removed is the number of matches -/
+theorem remove_by_intent_spec (l : List DA) (it : Nat) :
+    (∀ d, d ∈ removeByIntent l it ↔ d ∈ l ∧ d.intent ≠ it) ∧
+    (removeByIntent l it).length + (getArraysFromIntent l it).length = l.length := by
+  refine ⟨fun d => by simp [removeByIntent, List.mem_filter], ?_⟩
+  unfold removeByIntent getArraysFromIntent
+  induction l with
+  | nil => rfl
+  | cons a l ih =>
+    by_cases h : a.intent = it <;> simp [List.filter_cons, h] at ih ⊢ <;> omega
+
+/-- the ORIGINAL loop on four adjacent arrays of the intent leaves two of them behind -/
+theorem orig_remove_skips_adjacent :
+    removeByIntentOrig [⟨0, 5⟩, ⟨1, 5⟩, ⟨2, 5⟩, ⟨3, 5⟩] 5 = [⟨1, 5⟩, ⟨3, 5⟩] := by decide
+
+/-- … so the original logic violated the property (the repaired one does not) -/
+theorem removeByIntentOrig_counterexample :
+    removeByIntentOrig [⟨0, 5⟩, ⟨1, 5⟩, ⟨2, 5⟩, ⟨3, 5⟩] 5 ≠ removeByIntent [⟨0, 5⟩, ⟨1, 5⟩, ⟨2, 5⟩, ⟨3, 5⟩] 5 := by
+  decide
+
+/-- general characterisation of the original iterate-while-removing loop: on an image whose arrays are distinct
+    objects it keeps, unexamined, the array that follows each removed one -/
+theorem orig_loop_characterisation (l : List DA) (it : Nat) (h : l.Nodup) :
+    removeByIntentOrig l it = skipAfterRemoval (fun d => d.intent == it) l := by
+  have := origLoop_inv (fun d : DA => d.intent == it) (l.length + 1) [] l (by simpa using h) (by omega)
+  simpa [removeByIntentOrig] using this
+
+example : ([⟨0, 5⟩, ⟨1, 5⟩, ⟨2, 6⟩] : List DA).Nodup := by decide
+
+/-- no two adjacent elements both satisfy `p` -/
+def NoAdjacent {α} (p : α → Bool) : List α → Prop
+  | x :: y :: rest => ¬(p x = true ∧ p y = true) ∧ NoAdjacent p (y :: rest)
+  | _ => True
+
+theorem skip_eq_filter_iff {α} (p : α → Bool) (l : List α) :
+    skipAfterRemoval p l = l.filter (fun x => !p x) ↔ NoAdjacent p l := by
+  fun_induction skipAfterRemoval p l with
+  | case1 => simp [NoAdjacent]
+  | case2 x hp => simp [NoAdjacent, hp]
+  | case3 x hp y ys ih =>
+    cases hy : p y with
+    | true =>
+      simp only [NoAdjacent, hp, hy, and_self, not_true_eq_false, false_and, iff_false]
+      intro h
+      have hm : y ∈ List.filter (fun x => !p x) (x :: y :: ys) := by rw [← h]; simp
+      have := (List.mem_filter.1 hm).2
+      simp [hy] at this
+    | false =>
+      have e : NoAdjacent p (x :: y :: ys) ↔ NoAdjacent p ys := by
+        cases ys with
+        | nil => simp [NoAdjacent, hy]
+        | cons z zs => simp [NoAdjacent, hy]
+      rw [e, ← ih]
+      simp [List.filter_cons, hp, hy]
+  | case4 x xs hp ih =>
+    have hp : p x = false := by simpa using hp
+    have e : NoAdjacent p (x :: xs) ↔ NoAdjacent p xs := by
+      cases xs with
+      | nil => simp [NoAdjacent]
+      | cons z zs => simp [NoAdjacent, hp]
+    rw [e, ← ih]
+    simp [List.filter_cons, hp]
+
+/-- exactly when did the original code meet the property?  On distinct arrays: iff no two ADJACENT arrays carry
+    the intent to remove. -/
+theorem orig_correct_iff_no_adjacent (l : List DA) (it : Nat) (h : l.Nodup) :
+    removeByIntentOrig l it = removeByIntent l it ↔ NoAdjacent (fun d => d.intent == it) l := by
+  rw [orig_loop_characterisation l it h, ← skip_eq_filter_iff]
+  have : removeByIntent l it = l.filter (fun x => !(fun d : DA => d.intent == it) x) := by
+    simp [removeByIntent, bne]
+  rw [this]
+
+example : NoAdjacent (fun d : DA => d.intent == 5) [⟨0, 5⟩, ⟨1, 6⟩, ⟨2, 5⟩] := by simp [NoAdjacent]
+
+/-- `get_arrays_from_intent`: the result is THE sublist (image order) of all and only the arrays of the intent -/
+theorem select_is_filter (l : List DA) (it : Nat) (r : List DA) :
+    (r.Sublist l ∧ (∀ d ∈ r, d.intent = it) ∧ (∀ d, d.intent = it → r.count d = l.count d))
+      ↔ r = getArraysFromIntent l it := by
+  constructor
+  · rintro ⟨hs, hn, hc⟩
+    exact sublist_eq_filter (fun d => d.intent == it) hs (fun d hd => by simpa using hn d hd)
+      (fun d hd => hc d (by simpa using hd))
+  · rintro rfl
+    obtain ⟨h1, h2, h3⟩ := filter_spec (fun d : DA => d.intent == it) l
+    exact ⟨h1, fun d hd => by simpa using h2 d hd, fun d hd => h3 d (by simpa using hd)⟩
+
+example : getArraysFromIntent [⟨0, 5⟩, ⟨1, 6⟩, ⟨2, 5⟩] 5 = [⟨0, 5⟩, ⟨2, 5⟩] := by decide
+
+/-- selecting and removing by the same intent split the image: every array is in exactly one of the two -/
+theorem select_remove_partition (l : List DA) (it : Nat) (d : DA) :
+    l.count d = (getArraysFromIntent l it).count d + (removeByIntent l it).count d := by
+  unfold getArraysFromIntent removeByIntent
+  induction l with
+  | nil => rfl
+  | cons a l ih =>
+    by_cases h : a.intent = it <;> simp [List.filter_cons, h, List.count_cons] at ih ⊢ <;> omega
+
+/-- `remove_gifti_data_array(ith)` with a valid Python index removes exactly position `ith mod n`:
+    the arrays before it stay at their index, the arrays after it move up by one -/
+theorem remove_by_position (l : List DA) (i : Int) (h : -(l.length : Int) ≤ i ∧ i < l.length) :
+    ∃ r, removeAt l i = .ok r ∧ r.length + 1 = l.length ∧
+      (∀ j, j < (i % (l.length : Int)).toNat → r[j]? = l[j]?) ∧
+      (∀ j, (i % (l.length : Int)).toNat ≤ j → r[j]? = l[j + 1]?) := by
+  obtain ⟨h1, h2⟩ := h
+  have hk : (if i < 0 then i + (l.length : Int) else i) = i % (l.length : Int) := by
+    split
+    · rw [← Int.add_emod_right, Int.emod_eq_of_lt (by omega) (by omega)]
+    · rw [Int.emod_eq_of_lt (by omega) (by omega)]
+  have hk0 : 0 ≤ i % (l.length : Int) := by rw [← hk]; split <;> omega
+  have hkn : i % (l.length : Int) < l.length := by rw [← hk]; split <;> omega
+  refine ⟨l.eraseIdx (i % (l.length : Int)).toNat, ?_, ?_, ?_, ?_⟩
+  · unfold removeAt
+    simp only [hk]
+    rw [if_neg (by omega)]
+  · rw [List.length_eraseIdx, if_pos (by omega)]; omega
+  · intro j hj; rw [List.getElem?_eraseIdx, if_pos hj]
+  · intro j hj; rw [List.getElem?_eraseIdx, if_neg (by omega)]
+
+example : removeAt [⟨0, 5⟩, ⟨1, 6⟩, ⟨2, 5⟩] (-1) = .ok [⟨0, 5⟩, ⟨1, 6⟩] := by rfl
+
+/-- … and an index outside `[-n, n)` is refused (IndexError), the image is not touched -/
+theorem remove_by_position_error (l : List DA) (i : Int) (h : i < -(l.length : Int) ∨ (l.length : Int) ≤ i) :
+    removeAt l i = .error .index := by
+  unfold removeAt
+  simp only
+  split <;> rw [if_pos (by omega)]
+
+example : removeAt [⟨0, 5⟩] 1 = .error .index := by rfl
+
+/-- `add_gifti_data_array`: every array keeps its position, the new one is last -/
+theorem add_appends (l : List DA) (d : DA) :
+    (addArray l d).length = l.length + 1 ∧ (∀ j, j < l.length → (addArray l d)[j]? = l[j]?) ∧
+      (addArray l d)[l.length]? = some d := by
+  refine ⟨by simp [addArray], fun j hj => ?_, by simp [addArray]⟩
+  simp [addArray, List.getElem?_append_left hj]
+
+/-- `agg_data(code)`: the arrays aggregated are exactly those `get_arrays_from_intent` names (all arrays when no
+    code is given), in image order; they are column-stacked iff there is at least one and all are time series -/
+theorem agg_selects_filter (ts : Nat) (l : List DA) (code : Option Nat) :
+    (aggOne ts l code).ids = (aggSel l code).map (·.id) ∧
+    ((∃ ids, aggOne ts l code = .stack ids) ↔ (aggSel l code ≠ [] ∧ ∀ d ∈ aggSel l code, d.intent = ts)) ∧
+    (code = none → aggSel l code = l) ∧ (∀ c, code = some c → aggSel l code = getArraysFromIntent l c) := by
+  refine ⟨?_, ?_, fun h => by subst h; rfl, fun c h => by subst h; rfl⟩
+  · unfold aggOne aggOf
+    generalize aggSel l code = sel
+    split
+    · rfl
+    · match sel with
+      | [] => rfl
+      | [d] => rfl
+      | _ :: _ :: _ => rfl
+  · unfold aggOne aggOf
+    generalize aggSel l code = sel
+    by_cases hc : sel ≠ [] ∧ (sel.all fun d => d.intent == ts) = true
+    · rw [if_pos hc]
+      exact ⟨fun _ => ⟨hc.1, by simpa using hc.2⟩, fun _ => ⟨_, rfl⟩⟩
+    · rw [if_neg hc]
+      constructor
+      · rintro ⟨ids, h⟩
+        match sel, h with
+        | [], h => simp at h
+        | [d], h => simp at h
+        | _ :: _ :: _, h => simp at h
+      · rintro ⟨h1, h2⟩
+        exact absurd ⟨h1, by simpa using h2⟩ hc
+
+example : aggOne 7 [⟨0, 7⟩, ⟨1, 5⟩, ⟨2, 7⟩] (some 7) = .stack [0, 2] := by decide
+
+/-- `agg_data((c₁,…,cₖ))`: one result per requested code, in the order requested -/
+theorem agg_tuple_order (ts : Nat) (l : List DA) (codes : List Nat) :
+    (aggTuple ts l codes).map Agg.ids = codes.map (fun c => (getArraysFromIntent l c).map (·.id)) := by
+  simp only [aggTuple, List.map_map]
+  apply List.map_congr_left
+  intro c _
+  exact (agg_selects_filter ts l (some c)).1
+
+/-! ## parser: character-data collation -/
+
+/-- `chunking_independent`: two handler-call sequences that differ only in how expat split the character data of
+    the text nodes (same sequence after merging adjacent character-data calls) give the same parse result —
+    the same image or the same error.  Holds for every code table and every behaviour of the external codecs. -/
+theorem chunking_independent (K : Codes) (X : Ext) (es es' : List Event) (h : canon es = canon es') :
+    run K X es = run K X es' := by
+  rw [run_eq, run_eq, runFrom_canon K X es, runFrom_canon K X es', h]
+
+example : canon [.start "Data" [], .chars ['Q'], .chars [], .chars ['U', 'E'], .stop "Data"]
+    = canon [.start "Data" [], .chars ['Q', 'U'], .chars ['E'], .stop "Data"] := by
+  simp [canon]
+
+/-- explicit form: the text of one node may be delivered as ANY non-empty list of chunks (empty and one-character
+    chunks included) — the result is that of delivering the joined text in one call -/
+theorem rechunk_text_node (K : Codes) (X : Ext) (pre post : List Event) (cs : List Text) (h : cs ≠ []) :
+    run K X (pre ++ cs.map .chars ++ post) = run K X (pre ++ [.chars cs.flatten] ++ post) := by
+  rw [run_eq, run_eq, List.append_assoc, List.append_assoc, runFrom_append, runFrom_append]
+  cases runFrom K X {} pre with
+  | error e => rfl
+  | ok st =>
+    simp only
+    rw [runFrom_append, runFrom_chars]
+    simp only [List.singleton_append, runFrom, step]
+    obtain ⟨c, cs', rfl⟩ := List.exists_cons_of_ne_nil h
+    simp only [List.foldl_cons, List.flatten_cons]
+    exact runFrom_sim K X post (foldl_onChars_sim cs' st c)
+
+example : ([[], ['a'], [], ['b', 'c']] : List Text) ≠ [] := by decide
+
+/-! ## data block -/
+
+/-- every `w`-byte bit pattern survives encode/decode in either byte order -/
+theorem elem_roundtrip (big : Bool) (w v : Nat) (h : v < 256 ^ w) : decElem big (encElem big w v) = v :=
+  decElem_encElem big w v h
+
+/-- `np.frombuffer(arr.tobytes())` on bit patterns, any itemsize > 0, either byte order, any length -/
+theorem buffer_roundtrip (big : Bool) (w : Nat) (hw : 0 < w) (vals : List Nat) (hv : ∀ v ∈ vals, v < 256 ^ w) :
+    fromBuffer big w (toBytes big w vals) = .ok vals :=
+  fromBuffer_toBytes big w hw vals hv
+
+/-- `tobytes(order)` followed by `reshape(shape, order=order)` is the identity for row- and column-major order
+    and EVERY shape (any rank, any sizes, zero-length axes included) -/
+theorem order_roundtrip (col : Bool) (shape elems : List Nat) (h : elems.length = prod shape) :
+    fromOrder col shape (toOrder col shape elems) = elems :=
+  fromOrder_toOrder col shape elems h
+
+/-- the facts about the code tables the round trip needs (decidable; instantiated for the REGENERATED tables in
+    `codes_pinned`) -/
+structure Codes.Distinct (K : Codes) : Prop where
+  a_b : K.encAscii ≠ K.encB64
+  a_g : K.encAscii ≠ K.encGz
+  b_g : K.encB64 ≠ K.encGz
+  e_b : K.encExt ≠ K.encB64
+  e_g : K.encExt ≠ K.encGz
+  end_ : K.endBig ≠ K.endLittle
+  ord : K.ordCol ≠ K.ordRow
+
+/-- contract of the external codecs: decode ∘ encode = id on byte strings; compress yields bytes -/
+structure CodecContract (X : Ext) (b64enc : List Nat → Text) (deflate : List Nat → List Nat) : Prop where
+  b64 : ∀ b : List Nat, (∀ x ∈ b, x < 256) → X.b64dec (b64enc b) = some b
+  zlib : ∀ b : List Nat, (∀ x ∈ b, x < 256) → X.inflate (deflate b) = some b
+  zbytes : ∀ b : List Nat, (∀ x ∈ b, x < 256) → ∀ x ∈ deflate b, x < 256
+
+/-- the contract is satisfiable (bytes ↔ characters of the same code, identity "compression") -/
+example : ∃ (X : Ext) (b64enc : List Nat → Text) (deflate : List Nat → List Nat), CodecContract X b64enc deflate := by
+  refine ⟨⟨fun t => some (t.map Char.toNat), fun b => some b, fun _ _ _ => none⟩, fun b => b.map Char.ofNat, id,
+    ⟨fun b hb => ?_, fun _ _ => rfl, fun _ hb => hb⟩⟩
+  simp only [List.map_map, Option.some.injEq]
+  conv => rhs; rw [← List.map_id b]
+  apply List.map_congr_left
+  intro x hx
+  have hv : x.isValidChar := Or.inl (by have := hb x hx; omega)
+  simp [Char.ofNat, hv, Char.toNat, Char.ofNatAux]
+
+/-- `data_block_roundtrip`: for B64BIN and B64GZ × {little, big endian} × {row, column major} × every data type of
+    the table × every shape × all bit patterns: `read_data_block` applied to what `_data_tag_element` wrote (with
+    the same declared attributes) returns the array — same data type, shape, and bits. -/
+theorem data_block_roundtrip (K : Codes) (hK : K.Distinct) (X : Ext) (b64enc : List Nat → Text)
+    (deflate : List Nat → List Nat) (hX : CodecContract X b64enc deflate)
+    (gz big col : Bool) (dt w : Nat) (kind : Char)
+    (hdt : K.dtinfo.find? (fun r => r.1 == dt) = some (dt, w, kind)) (hw : 0 < w)
+    (shape elems : List Nat) (hlen : elems.length = prod shape) (hr : ∀ v ∈ elems, v < 256 ^ w) :
+    readDataBlock K X
+      ⟨if gz then K.encGz else K.encB64, if big then K.endBig else K.endLittle, dt, shape,
+       if col then K.ordCol else K.ordRow⟩
+      (some (writeDataBlock b64enc deflate gz big w col shape elems)) = .ok ⟨dt, shape, elems⟩ := by
+  have hpos : 0 < 256 ^ w := Nat.pow_pos (by decide)
+  have hbytes : ∀ x ∈ toBytes big w (toOrder col shape elems), x < 256 := toBytes_lt big w _
+  have hflat := fromBuffer_toBytes big w hw (toOrder col shape elems) (toOrder_mem_lt col shape elems _ hpos hr)
+  have hendian : endianOf K (if big then K.endBig else K.endLittle) = some big := by
+    cases big <;> simp [endianOf, Ne.symm hK.end_]
+  have horder : orderOf K (if col then K.ordCol else K.ordRow) = some col := by
+    cases col <;> simp [orderOf, Ne.symm hK.ord]
+  have henc1 : ((if gz then K.encGz else K.encB64) == K.encAscii) = false := by
+    cases gz <;> simp [Ne.symm hK.a_b, Ne.symm hK.a_g]
+  have henc2 : ((if gz then K.encGz else K.encB64) == K.encExt) = false := by
+    cases gz <;> simp [Ne.symm hK.e_b, Ne.symm hK.e_g]
+  have henc3 : ((if gz then K.encGz else K.encB64) != K.encB64) = gz := by
+    cases gz <;> simp [Ne.symm hK.b_g]
+  have henc4 : ((if gz then K.encGz else K.encB64) == K.encB64 || (if gz then K.encGz else K.encB64) == K.encGz) = true := by
+    cases gz <;> simp
+  have hdec : decodeBinary X gz big w col shape dt
+      (some (writeDataBlock b64enc deflate gz big w col shape elems)) = .ok ⟨dt, shape, elems⟩ := by
+    unfold decodeBinary writeDataBlock
+    cases gz with
+    | false =>
+      simp only [Bool.false_eq_true, if_false, hX.b64 _ hbytes, hflat]
+      simp [toOrder_length col shape elems hlen, fromOrder_toOrder col shape elems hlen]
+    | true =>
+      simp only [if_true, hX.b64 _ (hX.zbytes _ hbytes), hX.zlib _ hbytes, hflat]
+      simp [toOrder_length col shape elems hlen, fromOrder_toOrder col shape elems hlen]
+  unfold readDataBlock
+  simp only [hendian, horder, hdt, henc1, henc2, henc3]
+  have : (K.encAscii == K.encAscii) = true := by simp
+  rw [← hdec]
+  cases gz <;> simp
+
+/-- the REGENERATED tables satisfy what the theorems assume: the three encodings, two byte orders and two index
+    orders have distinct codes; the GIFTI data types are uint8 (1 byte, 'u'), int32 (4, 'i'), float32 (4, 'f');
+    NIFTI_INTENT_TIME_SERIES is the code `agg_data` stacks on. -/
+theorem codes_pinned :
+    Gen.codes.Distinct ∧
+    (Gen.giftiDtypes.map (fun c => Gen.codes.dtinfo.find? (fun r => r.1 == c))
+      = [some (2, 1, 'u'), some (8, 4, 'i'), some (16, 4, 'f')]) ∧
+    lookup Gen.codes.intent "NIFTI_INTENT_TIME_SERIES".toList = some Gen.codes.timeSeries ∧
+    lookup Gen.codes.encoding "Base64Binary".toList = some Gen.codes.encB64 ∧
+    lookup Gen.codes.encoding "GZipBase64Binary".toList = some Gen.codes.encGz ∧
+    lookup Gen.codes.encoding "ASCII".toList = some Gen.codes.encAscii ∧
+    lookup Gen.codes.endian "BigEndian".toList = some Gen.codes.endBig ∧
+    lookup Gen.codes.endian "LittleEndian".toList = some Gen.codes.endLittle ∧
+    lookup Gen.codes.order "RowMajorOrder".toList = some Gen.codes.ordRow ∧
+    lookup Gen.codes.order "ColumnMajorOrder".toList = some Gen.codes.ordCol := by
+  refine ⟨⟨?_, ?_, ?_, ?_, ?_, ?_, ?_⟩, ?_, ?_, ?_, ?_, ?_, ?_, ?_, ?_, ?_⟩ <;> decide
+
+/-- non-vacuity of `data_block_roundtrip`: the regenerated tables, a concrete codec pair satisfying the contract
+    (bytes ↔ characters, identity "compression"), a 2×3 int32 array with extreme bit patterns, column-major,
+    big-endian, gzip branch -/
+example :
+    let X : Ext := ⟨fun t => some (t.map Char.toNat), fun b => some b, fun _ _ _ => none⟩
+    readDataBlock Gen.codes X ⟨Gen.codes.encGz, Gen.codes.endBig, 8, [2, 3], Gen.codes.ordCol⟩
+      (some (writeDataBlock (fun b => b.map Char.ofNat) id true true 4 true [2, 3]
+        [0, 1, 4294967295, 2147483648, 5, 6])) = .ok ⟨8, [2, 3], [0, 1, 4294967295, 2147483648, 5, 6]⟩ := by
+  rfl
 
 end Nb.C17
